@@ -741,10 +741,23 @@ func prepare(a *adapter, seed int64, res *vh.Result) *protoState {
 
 // quotas: number of mutated runs per protocol and tier.
 var quota = map[string]map[string]int{
-	"quick": {"session": 90, "gennaro": 80, "hjky": 60, "redistribute": 90, "redistribute-recover": 30, "lindell22": 100, "boldyreva": 36, "boldyreva-3": 6, "dkls23": 4,
-		"canetti": 40, "dkls23-softspoken": 3, "lindell17": 4, "cggmp21": 1},
-	"thorough": {"session": 3000, "gennaro": 1500, "hjky": 800, "redistribute": 1500, "redistribute-recover": 600, "lindell22": 1500, "boldyreva": 200, "boldyreva-3": 100, "dkls23": 45,
+	"quick": {"session": 90, "gennaro": 80, "hjky": 60, "redistribute": 90, "redistribute-recover": 30, "lindell22": 100, "boldyreva": 34, "boldyreva-3": 4, "dkls23": 2, "aor": 40,
+		"canetti": 60, "dkls23-softspoken": 2, "lindell17": 3, "cggmp21": 0},
+	"thorough": {"session": 3000, "gennaro": 1500, "hjky": 800, "redistribute": 1500, "redistribute-recover": 600, "lindell22": 1500, "boldyreva": 200, "boldyreva-3": 100, "dkls23": 45, "aor": 600, "lindell17dkg": 12,
 		"canetti": 1000, "dkls23-softspoken": 40, "lindell17": 60, "cggmp21": 40},
+}
+
+func quotaOf(tier, name string, search bool) int {
+	n := quota[tier][name]
+	if search {
+		n *= 3
+	}
+	for _, kv := range strings.Split(os.Getenv("C04_QUOTA"), ",") {
+		if k, v, ok := strings.Cut(kv, "="); ok && k == name {
+			n, _ = strconv.Atoi(v)
+		}
+	}
+	return n
 }
 
 // opRank orders the strata so that a small quota first covers value changes of every field.
@@ -917,6 +930,15 @@ func main() {
 	for _, ad := range ads {
 		byName[ad.name] = ad
 	}
+	if tier != "thorough" && a.Replay == "" {
+		var sel []*adapter
+		for _, ad := range ads {
+			if !ad.thoroughOnly {
+				sel = append(sel, ad)
+			}
+		}
+		ads = sel
+	}
 
 	report := func(st *protoState, m *mutation, rep *runReport, idx int) {
 		res.Count(fmt.Sprintf("%s/%s/%s", m.proto, m.op.Kind, rep.class), rep.canon, rep.applied)
@@ -929,6 +951,9 @@ func main() {
 		seen := map[string]bool{}
 		for _, f := range rep.findings {
 			key := m.proto + "-" + f.clause
+			if f.clause == "unicast-detected-only-by-aggregator" && strings.HasPrefix(m.proto, "dkls23") {
+				key = "dkls23-" + f.clause // one protocol-design limitation, whatever the multiplier
+			}
 			if seen[key] {
 				continue
 			}
@@ -1021,6 +1046,9 @@ func main() {
 	}
 
 	for _, ad := range ads {
+		if quotaOf(tier, ad.name, a.Search) == 0 {
+			continue // not sampled in this tier (corpus cases of the protocol still ran above)
+		}
 		st := stateOf(ad.name)
 		if st == nil {
 			continue
@@ -1057,15 +1085,7 @@ func main() {
 			strata[s] = append(strata[s], m)
 		}
 		sort.Strings(order)
-		n := quota[tier][ad.name]
-		if a.Search {
-			n *= 3
-		}
-		for _, kv := range strings.Split(os.Getenv("C04_QUOTA"), ",") {
-			if k, v, ok := strings.Cut(kv, "="); ok && k == ad.name {
-				n, _ = strconv.Atoi(v)
-			}
-		}
+		n := quotaOf(tier, ad.name, a.Search)
 		cpu0 := cpuSeconds()
 		var chosen []*mutation
 		taken := map[*mutation]bool{}
